@@ -2,6 +2,7 @@
 import json
 
 import suite_q
+import suite_l
 import suite_o
 import suite_k
 import suite_e
@@ -29,8 +30,13 @@ PROPS = {
     "C03": dict(
         props="Props/C03.v",
         tables=["core"],
-        suites=[suite_q.run],
-        rule=("suite Q: every public query of Relation/Feature/FeatureModel computed by the implementation "
+        suites=[suite_q.run, suite_l.run],
+        rule=("suite L: sequences of public calls that create and link feature objects (Feature(...), add_relation, del "
+              "relations[k], Relation.add_child, parent assignment; four in five respect the guards of "
+              "C03_construction_linked, moves of subtrees included) on the implementation and on the heap model "
+              "(Model/Heap.v): the object graph by identity and the pointer-following queries compared; oracle: linked, and "
+              "is_mandatory / is_optional equal to the holding relation's. "
+              "suite Q: every public query of Relation/Feature/FeatureModel computed by the implementation "
               "on a model built through the public constructors, compared as canonical S-expressions "
               "with the extracted Gallina model; streams: all (min,max,n) in [-1,4]^2 x [1,4]; all tree "
               "shapes x relation partitions x cardinalities up to 4 (quick) / 6 (thorough) features; "
